@@ -1,18 +1,8 @@
 //! vcheck: property-based checks of BLAKE3 (/repo) against an independent spec model.
 #![allow(clippy::too_many_arguments)]
 
-mod cjoin;
-mod cshim;
-mod gen;
-mod guard;
-mod hist;
-mod kernels;
-mod levels;
-mod props;
-mod runner;
-mod selftest;
-
-use runner::{ShardCtx, Tier};
+use vcheck_lib::runner::{ShardCtx, Tier};
+use vcheck_lib::{kernels, props, runner, selftest};
 
 fn arg_val(args: &[String], name: &str) -> Option<String> {
     args.iter().position(|a| a == name).and_then(|i| args.get(i + 1).cloned())
@@ -39,6 +29,66 @@ fn main() {
         "c18-child" => {
             let code = props::c18::child_main(&args[2]);
             std::process::exit(code);
+        }
+        "fuzz-replay" => {
+            // vcheck fuzz-replay <prop> <sub> --out FILE <corpus files or directories...>
+            let prop = args[2].clone();
+            let sub = args[3].clone();
+            let out = arg_val(&args, "--out");
+            let mut files: Vec<std::path::PathBuf> = Vec::new();
+            let mut i = 4;
+            while i < args.len() {
+                if args[i] == "--out" {
+                    i += 2;
+                    continue;
+                }
+                let p = std::path::PathBuf::from(&args[i]);
+                if p.is_dir() {
+                    let mut v: Vec<_> = std::fs::read_dir(&p).map(|d| d.filter_map(|e| e.ok().map(|e| e.path())).filter(|p| p.is_file()).collect()).unwrap_or_default();
+                    v.sort();
+                    files.extend(v);
+                } else if p.is_file() {
+                    files.push(p);
+                }
+                i += 1;
+            }
+            let mut n = 0u64;
+            let mut nontrivial = std::collections::BTreeSet::new();
+            let mut classes: std::collections::BTreeMap<String, u64> = Default::default();
+            let mut samples = Vec::new();
+            let mut violations = Vec::new();
+            for f in &files {
+                let data = match std::fs::read(f) {
+                    Ok(d) => d,
+                    Err(_) => continue,
+                };
+                if let Some((case, cl, r)) = vcheck_lib::fuzz::one(&prop, &sub, &data, Tier::Quick) {
+                    n += 1;
+                    for t in &cl.tags {
+                        *classes.entry((*t).to_string()).or_insert(0) += 1;
+                    }
+                    if cl.nontrivial {
+                        if nontrivial.insert(runner::fingerprint(&case.to_string())) && samples.len() < 2 {
+                            samples.push(case.clone());
+                        }
+                    }
+                    if let Err(m) = r {
+                        let fp = runner::fingerprint(&format!("{}{}", sub, case));
+                        let path = format!("/verif/replays/{}-{}-corpus-{:016x}.json", prop, sub, fp);
+                        let doc = serde_json::json!({"property": prop, "sub": sub, "message": m, "tier": "corpus", "seed": 0, "case": case, "corpus_file": f.display().to_string()});
+                        let _ = std::fs::create_dir_all("/verif/replays");
+                        let _ = std::fs::write(&path, serde_json::to_string_pretty(&doc).unwrap());
+                        violations.push(serde_json::json!({"sub": format!("corpus:{}", sub), "message": m, "replay": path}));
+                    }
+                }
+            }
+            let doc = serde_json::json!({"property": prop, "sub": sub, "files": files.len(), "decoded": n, "distinct_nontrivial": nontrivial.len(), "classes": classes, "samples": samples, "violations": violations});
+            if let Some(o) = out {
+                std::fs::write(o, doc.to_string()).expect("write");
+            } else {
+                println!("{}", doc);
+            }
+            std::process::exit(if violations.is_empty() { 0 } else { 1 });
         }
         "kernels" => {
             for k in kernels::all_kernels() {
